@@ -92,10 +92,16 @@ def ncf2lateral_boundary(ncffile, outpath):
         time_hdr['iedate'] = edate % (edate // 100000 * 100000)
         time_hdr['etime'] = etime.astype('>f') / 10000.
     else:
-        time_hdr['iedate'] = date
-        time_hdr['etime'] = time + 1.
-        time_hdr['iedate'] += (time_hdr['etime'] // 24).astype('i')
-        time_hdr['etime'] -= (time_hdr['etime'] // 24) * 24
+        # begin + time step (one hour unless the file says otherwise) with
+        # calendar arithmetic; same rule as the gridded writer
+        from datetime import datetime, timedelta
+        tincr = getattr(ncffile, 'TSTEP', 10000) / 10000
+        ends = [datetime.strptime('%07d' % d, '%Y%j') +
+                timedelta(hours=float(t) + float(tincr))
+                for d, t in zip(ncffile.variables['TFLAG'][:, 0, 0], time)]
+        edate = np.array([int(e.strftime('%Y%j')) for e in ends])
+        time_hdr['iedate'] = edate % (edate // 100000 * 100000)
+        time_hdr['etime'] = np.array([e.hour + e.minute / 60. for e in ends])
     emiss_hdr['ibdate'] = time_hdr['ibdate'][0]
     emiss_hdr['btime'] = time_hdr['btime'][0]
     emiss_hdr['iedate'] = time_hdr['iedate'][-1]
